@@ -38,4 +38,14 @@ Definition c17_default_eps (s : c17_cstyle) : fl :=
   | C17_RelStrong => c17_fmul prec emax Hprec Hmax c17_machine_eps (c17_literal c17_param_eps_strong_num c17_param_eps_strong_den)
   | C17_Absolute => c17_fmax prec emax c17_machine_eps (c17_literal c17_param_eps_abs_num c17_param_eps_abs_den)
   end.
+
+(* FloatCmpOps(EpsilonType epsilon = DefaultEpsilon<EpsilonType, cstyle>::value()) *)
+Definition c17_ops_default (cs : c17_cstyle) (rs : c17_rstyle) : c17_ops prec emax :=
+  C17_Ops prec emax cs rs (c17_default_eps cs).
 End Defaults.
+
+(* math.hh sign: `return (val < 0 ? -1 : 1);` with the two literals re-read from the source *)
+Definition c17_isign_src (v : Z) : Z := if (v <? 0)%Z then c17_param_sign_neg else c17_param_sign_nonneg.
+(* math.hh binomial(integral_constant<T,n>, integral_constant<T,n>): `(n >= 0 ? 1 : 0)`, literals re-read *)
+Definition c17_binomial_nn_src (n : Z) : Z := if (0 <=? n)%Z then c17_param_binom_nn_then else c17_param_binom_nn_else.
+
